@@ -55,7 +55,27 @@ def spec_strategy():
         'arg': arg, 'diameter': st.one_of(specs.logfloat(-2, 2, 6), specs.logfloat(-2, 2, 6), st.sampled_from([1.0, 2, 0.0, 0])),
         'scale': st.one_of(specs.logfloat(-2, 2, 5), st.sampled_from([-1.0, 3.0])),
         'other': st.one_of(st.none(), st.fixed_dictionaries({'dc': specs.logfloat(-3, 3, 6), 'dc_unit': st.sampled_from(sorted(LENGTH_UNITS)),
-                                                           'ec': specs.logfloat(-3, 3, 6), 'ec_unit': st.sampled_from(sorted(ENERGY_UNITS))}))})
+                                                           'ec': specs.logfloat(-3, 3, 6), 'ec_unit': st.sampled_from(sorted(ENERGY_UNITS))})),
+        # constructor arguments left out: the documented defaults (1.0 nanometer, 14.02 gram/mole, 2.48 kilojoule/mole) apply
+        'omit': st.sampled_from([[], [], [], ['dc'], ['ec'], ['mc'], ['dc', 'mc', 'ec']])}).map(apply_defaults)
+
+
+DEFAULTS = {'dc': (1.0, 'nanometer'), 'mc': (14.02, 'gram/mole'), 'ec': (2.48, 'kilojoule/mole')}
+
+
+def apply_defaults(spec):
+    spec = dict(spec)
+    for name in spec.get('omit', []):
+        spec[name], spec[name + '_unit'] = DEFAULTS[name]
+    return spec
+
+
+def converter_kwargs(spec):
+    kw = {}
+    for name in ('dc', 'mc', 'ec'):
+        if name not in spec.get('omit', []):
+            kw[name], kw[name + '_unit'] = spec[name], spec[name + '_unit']
+    return kw
 
 
 def build_arg(a):
@@ -105,8 +125,9 @@ class Convert(Sub):
         import pint
         out = Outcome()
         sig = PID + '/'
-        uc = P.util.UnitConverter(dc=spec['dc'], dc_unit=spec['dc_unit'], mc=spec['mc'], mc_unit=spec['mc_unit'],
-                                  ec=spec['ec'], ec_unit=spec['ec_unit'])
+        uc = P.util.UnitConverter(**converter_kwargs(spec))
+        if spec.get('omit'):
+            out.label('defaults-for-' + '+'.join(spec['omit']))
         if spec.get('other') is not None:
             # a second converter with other characteristic values is alive while the first one is used: converters are independent
             o = spec['other']
